@@ -4,6 +4,9 @@ import DC.Proofs.CheckObserve
 
 namespace DC.Cache
 
+/-- an empty cleanup list has nothing to bound -/
+macro "nobound" : tactic => `(tactic| (intro f hf; first | cases hf | (simp at hf)))
+
 theorem touch_BI {x : Cache} (hd : 0 < x.depth) (h : BI x) (E : Externals) (now : Int) (k : PyVal)
     (ttl : Option Int) : BI (x.touch E now k ttl).1 := by
   obtain ⟨cl, hP, hS⟩ := h
@@ -15,9 +18,9 @@ theorem touch_BI {x : Cache} (hd : 0 < x.depth) (h : BI x) (E : Externals) (now 
   · left
     split
     · split
-      · exact ⟨rfl, cl, by apply fPI_updExp; fcore_simp; simpa using hP, hS⟩
-      · exact ⟨rfl, cl, by fcore_simp; simpa using hP, hS⟩
-    · exact ⟨rfl, cl, by fcore_simp; simpa using hP, hS⟩
+      · exact ⟨rfl, cl, by apply fPI_updExp; fcore_simp; simpa using hP, hS, by nobound⟩
+      · exact ⟨rfl, cl, by fcore_simp; simpa using hP, hS, by nobound⟩
+    · exact ⟨rfl, cl, by fcore_simp; simpa using hP, hS, by nobound⟩
 
 theorem delitem_BI {x : Cache} (hd : 0 < x.depth) (h : BI x) (E : Externals) (now : Int) (k : PyVal) :
     BI (x.delitem E now k).1 := by
@@ -33,9 +36,14 @@ theorem delitem_BI {x : Cache} (hd : 0 < x.depth) (h : BI x) (E : Externals) (no
       exact ⟨rfl, cl, by fcore_simp; simpa using hP, hS⟩
     · rename_i r hr
       left
-      refine ⟨rfl, cl, ?_, hS⟩
-      have := fPI_delRow (s := x.logSql "selLive") (cl := cl) (by fcore_simp; exact hP) r (selLive_mem hr)
-      exact this.cl_congr (by intro f; simp [or_comm])
+      refine ⟨rfl, cl, ?_, hS, ?_⟩
+      · have := fPI_delRow (s := x.logSql "selLive") (cl := cl) (by fcore_simp; exact hP) r (selLive_mem hr)
+        exact this.cl_congr (by intro f; simp [or_comm])
+      · intro f hf
+        have hf : r.file = some f := by
+          have : some f ∈ [r.file] := hf
+          exact (List.mem_singleton.1 this).symm
+        exact hP.ref_lt (c := fcore x) (selLive_mem hr) hf
 
 theorem delete_BI {x : Cache} (hd : 0 < x.depth) (h : BI x) (E : Externals) (now : Int) (k : PyVal) :
     BI (x.delete E now k).1 := by
@@ -60,7 +68,7 @@ theorem BI.same {x y : Cache} (h : BI x) (h1 : y.rows = x.rows) (h2 : y.files = 
       simp only [fcore, qz, core, h1, h2, h3]
     rw [this]
     exact ⟨hP.uid, hP.ref, hP.inj, hP.fresh, hP.nodup, hP.orphan, hP.depth, hP.snap, hP.pending, hP.created⟩
-  · intro f hf; rw [h6, h7]; exact hS f hf
+  · exact hS.of_eq h6 h7 h3
 
 theorem stats_BI {x : Cache} (h : BI x) (enable reset : Bool) : BI (x.stats enable reset).1 := by
   refine h.same ?_ ?_ ?_ ?_ ?_ <;> (simp only [stats]; split <;> rfl)
@@ -81,35 +89,44 @@ theorem get_BI {x : Cache} (hd : 0 < x.depth) (h : BI x) (E : Externals) (now : 
       all_goals q4_auto
     · left
       split
-      · refine ⟨rfl, cl, ?_, hS⟩
+      · refine ⟨rfl, cl, ?_, hS, by nobound⟩
         split <;> (fcore_simp; simpa using hP)
       · split
-        · refine ⟨rfl, cl, ?_, hS⟩
+        · refine ⟨rfl, cl, ?_, hS, by nobound⟩
           split <;> (fcore_simp; simpa using hP)
-        · refine ⟨rfl, cl, ?_, hS⟩
+        · refine ⟨rfl, cl, ?_, hS, by nobound⟩
           simp only [List.nil_append]
           (repeat' split) <;> first | (fcore_simp; simpa using hP) | (apply fPI_updGet; fcore_simp; simpa using hP)
 
 /-- inside a block `_remove_committed` defers the removal: the file joins `pending` -/
 theorem removeCommitted_BI {t : Cache} {cl : List (Option Nat)} {f : Option Nat} (hd : 0 < t.depth)
-    (hP : PI (fcore t) (cl ++ [f])) (hS : Sub cl t) : BI (t.removeCommitted f) := by
+    (hP : PI (fcore t) (cl ++ [f])) (hS : Sub cl t) (hlt : ∀ g, f = some g → g < t.nfile) :
+    BI (t.removeCommitted f) := by
   unfold removeCommitted
   cases f with
   | none =>
-    refine ⟨cl ++ [none], hP, ?_⟩
-    intro g hg
-    simp only [List.mem_append, List.mem_singleton, reduceCtorEq, or_false] at hg
-    exact hS g hg
+    refine ⟨cl ++ [none], hP, ?_, ?_⟩
+    · intro g hg
+      simp only [List.mem_append, List.mem_singleton, reduceCtorEq, or_false] at hg
+      exact hS.inn g hg
+    · intro g hg
+      exact ⟨List.mem_append_left _ (hS.pend g hg).1, (hS.pend g hg).2⟩
   | some f =>
     simp only [gt_iff_lt, hd, if_true]
-    refine ⟨cl ++ [some f], hP, ?_⟩
-    intro g hg
-    simp only [List.mem_append, List.mem_singleton, Option.some.injEq] at hg
-    rcases hg with hg | rfl
-    · rcases hS g hg with h1 | h1
-      · exact .inl (List.mem_append_left _ h1)
-      · exact .inr h1
-    · exact .inl (by simp)
+    refine ⟨cl ++ [some f], hP, ?_, ?_⟩
+    · intro g hg
+      simp only [List.mem_append, List.mem_singleton, Option.some.injEq] at hg
+      rcases hg with hg | rfl
+      · rcases hS.inn g hg with h1 | h1
+        · exact .inl (List.mem_append_left _ h1)
+        · exact .inr h1
+      · exact .inl (by simp)
+    · intro g hg
+      have hg : some g ∈ t.pending ++ [some f] := hg
+      simp only [List.mem_append, List.mem_singleton, Option.some.injEq] at hg
+      rcases hg with hg | rfl
+      · exact ⟨List.mem_append_left _ (hS.pend g hg).1, (hS.pend g hg).2⟩
+      · exact ⟨by simp, hlt g rfl⟩
 
 theorem pop_BI {x : Cache} (hd : 0 < x.depth) (h : BI x) (E : Externals) (now : Int) (k : PyVal)
     (et tg : Bool) : BI (x.pop E now k et tg).1 := by
@@ -122,24 +139,19 @@ theorem pop_BI {x : Cache} (hd : 0 < x.depth) (h : BI x) (E : Externals) (now : 
     apply transact_BI' _ hd
     · q4_auto
     · left
-      exact ⟨rfl, cl, by fcore_simp; simpa using hP, hS⟩
+      exact ⟨rfl, cl, by fcore_simp; simpa using hP, hS, by nobound⟩
   · rename_i r hr
     simp only
     have hq : Q4 x ((fun s : Cache => ({ s := (s.logSql "selLive").delRow r.rowid, out := Out.none } : Body)) x).s := by
       q4_auto
     have hf := transact_inblock_fcore x hd (fun s => { s := (s.logSql "selLive").delRow r.rowid, out := Out.none }) none
-    obtain ⟨q1, q2, q3, q4, -⟩ := transact_inblock_q4 x hd
+    obtain ⟨q1, q2, q3, q4, -, q6⟩ := transact_inblock_q4 x hd
       (fun s => { s := (s.logSql "selLive").delRow r.rowid, out := Out.none }) none hq
     generalize (x.transact fun s => { s := (s.logSql "selLive").delRow r.rowid, out := Out.none }).1 = t at *
     have hPt : PI (fcore t) (cl ++ [r.file]) := by
       rw [hf]
       exact fPI_delRow (s := x.logSql "selLive") (cl := cl) (by fcore_simp; exact hP) r (selLive_mem hr)
-    have hSt : Sub cl t := by
-      intro g hg
-      rw [q3, q4]
-      rcases hS g hg with h1 | h1
-      · exact .inl (List.mem_append_left _ h1)
-      · exact .inr h1
+    have hSt : Sub cl t := hS.of_eq (by rw [q4]; simp) q3 q6
     have hdt : 0 < t.depth := by rw [q1]; exact hd
     have key : BI ((t.fetchRow E r false).1.removeCommitted r.file) := by
       apply removeCommitted_BI (cl := cl)
@@ -147,16 +159,16 @@ theorem pop_BI {x : Cache} (hd : 0 < x.depth) (h : BI x) (E : Externals) (now : 
         rw [this.depth]; exact hdt
       · fcore_simp; exact hPt
       · exact hSt.q4 ((Q4.refl t).fetchRow E r false)
+      · intro g hg
+        rw [((Q4.refl t).fetchRow E r false).nfile, q6]
+        exact hP.ref_lt (c := fcore x) (selLive_mem hr) hg
     split <;> exact key
 
-/-- the cleanup list after the file written for this call has been attached to its row -/
-def dropFile (cl : List (Option Nat)) (f : Option Nat) : List (Option Nat) := cl.filter (· != f)
-
-theorem mem_dropFile {cl : List (Option Nat)} {f g : Option Nat} : g ∈ dropFile cl f ↔ g ∈ cl ∧ g ≠ f := by
-  simp [dropFile]
-
-theorem Sub.drop {cl : List (Option Nat)} {x : Cache} (h : Sub cl x) (f : Option Nat) : Sub (dropFile cl f) x :=
-  h.mono (fun _ hg => (mem_dropFile.1 hg).1)
+theorem reg_fields (x : Cache) (f : Option Nat) :
+    (reg x f).pending = x.pending ∧ (reg x f).nfile = x.nfile ∧ ∀ g ∈ x.created, g ∈ (reg x f).created := by
+  cases f with
+  | none => exact ⟨rfl, rfl, fun _ h => h⟩
+  | some f => exact ⟨rfl, rfl, fun _ h => List.mem_append_left _ h⟩
 
 theorem setBody_q4 (dbk : SqlVal) (raw : Bool) (now : Int) (c : Cols) (y : Cache) :
     Q4 y (setBody dbk raw now c y).s := by
@@ -168,7 +180,8 @@ theorem setBody_fPI (dbk : SqlVal) (raw : Bool) (now : Int) (c : Cols) (y : Cach
     (hP : PI (fcore y) (c.file :: cl))
     (hfile : ∀ g, c.file = some g → ∃ ct, (g, ct) ∈ y.files ∧ ct.size = c.size) :
     ((setBody dbk raw now c y).ok = true ∧
-      PI (fcore (setBody dbk raw now c y).s) ((setBody dbk raw now c y).cleanup ++ dropFile cl c.file)) ∨
+      PI (fcore (setBody dbk raw now c y).s) ((setBody dbk raw now c y).cleanup ++ dropFile cl c.file) ∧
+      ∀ f, some f ∈ (setBody dbk raw now c y).cleanup → f < y.nfile) ∨
     ((setBody dbk raw now c y).ok = false ∧ PI (fcore (setBody dbk raw now c y).s) (c.file :: cl)) := by
   unfold setBody
   split
@@ -186,14 +199,21 @@ theorem setBody_fPI (dbk : SqlVal) (raw : Bool) (now : Int) (c : Cols) (y : Cach
       (by intro g hg; exact ⟨by simp [hg], hfile g hg⟩)
       (by intro f; simp [mem_dropFile]; grind)
     have h2 := fcullW_PI _ now _ h1
-    exact h2.cl_congr (by intro f; simp; grind)
+    refine ⟨h2.cl_congr (by intro f; simp; grind), ?_⟩
+    intro f hf
+    rcases List.mem_append.1 hf with hf | hf
+    · have hf : r.file = some f := (List.mem_singleton.1 hf).symm
+      exact hP.ref_lt (c := fcore y) (selKey_mem hr) hf
+    · exact fcullW_lt _ now h1 f hf
   · simp only
     have h1 := fPI_insRow (s := y.logSql "selKey") (cl := c.file :: cl) (cl2 := dropFile cl c.file)
       (by fcore_simp; exact hP) dbk raw now c
       (by intro g hg; exact ⟨by simp [hg], hfile g hg⟩)
       (by intro f; simp [mem_dropFile]; grind)
     have h2 := fcullW_PI _ now _ h1
-    exact h2.cl_congr (by intro f; simp; grind)
+    refine ⟨h2.cl_congr (by intro f; simp; grind), ?_⟩
+    intro f hf
+    exact fcullW_lt _ now h1 f (by simpa using hf)
 
 theorem set_BI {x : Cache} (hd : 0 < x.depth) (h : BI x) (E : Externals) (now : Int) (k v : PyVal)
     (ttl : Option Int) (read : Bool) (tag : SqlVal) : BI (x.set E now k v ttl read tag).1 := by
@@ -204,11 +224,12 @@ theorem set_BI {x : Cache} (hd : 0 < x.depth) (h : BI x) (E : Externals) (now : 
   | ok p =>
     obtain ⟨x1, c⟩ := p
     obtain ⟨hP1, hfile⟩ := fstore_PI hst hP
-    obtain ⟨e1, -, e3, e4, -⟩ := store_fields hst
+    obtain ⟨e1, -, e3, e4, -, e6, e7⟩ := store_fields hst
     have hd1 : 0 < x1.depth := by rw [e1]; exact hd
-    have hS1 : Sub (c.file :: cl) (reg x1 c.file) := (hS.of_eq e3 e4).reg c.file
+    obtain ⟨g1, g2, g3⟩ := reg_fields x1 c.file
+    have hS1 : Sub (c.file :: cl) (reg x1 c.file) := (hS.grow e3 (fun f hf => e4 ▸ hf) e6).reg c.file
     have hSd : Sub (dropFile cl c.file) (reg x1 c.file) :=
-      hS1.mono (fun f hf => List.mem_cons_of_mem _ (mem_dropFile.1 hf).1)
+      hS.dropGrow (g1.trans e3) (fun f hf => g3 f (e4 ▸ hf)) (by rw [g2]; exact e6) c.file e7
     have hPr : PI (fcore (reg x1 c.file)) (c.file :: cl) := by rw [fcore_reg]; exact hP1
     have hfile' : ∀ g, c.file = some g → ∃ ct, (g, ct) ∈ (reg x1 c.file).files ∧ ct.size = c.size := by
       intro g hg
@@ -219,32 +240,26 @@ theorem set_BI {x : Cache} (hd : 0 < x.depth) (h : BI x) (E : Externals) (now : 
     · exact setBody_q4 _ _ _ _ _
     · rcases setBody_fPI (DC.put E x.cfg.disk k).1 (DC.put E x.cfg.disk k).2 now
         { c with expT := ttl.map (now + ·), tag := tag } (reg x1 c.file) cl hPr hfile' with ⟨h1, h2⟩ | ⟨h1, h2⟩
-      · exact .inl ⟨h1, _, h2, hSd⟩
+      · exact .inl ⟨h1, _, h2.1, hSd, h2.2⟩
       · exact .inr ⟨h1, _, h2, hS1⟩
 
 /-- the state `incr` builds after storing a fresh value: facts shared by its two branches -/
 theorem incr_store_facts {x y s1 : Cache} {E : Externals} {v : PyVal} {c : Cols} {cl : List (Option Nat)}
-    (hd : 0 < y.depth) (hP : PI (fcore y) cl) (hS : Sub cl x) (hp : y.pending = x.pending)
-    (hc : y.created = x.created) (hst : y.store E v false = .ok (s1, c)) :
+    (_hd : 0 < y.depth) (hP : PI (fcore y) cl) (hS : Sub cl x) (hp : y.pending = x.pending)
+    (hc : y.created = x.created) (hn : y.nfile = x.nfile) (hst : y.store E v false = .ok (s1, c)) :
     PI (fcore (s1.regCreated c.file)) (c.file :: cl) ∧
     (∀ g, c.file = some g → ∃ ct, (g, ct) ∈ (s1.regCreated c.file).files ∧ ct.size = c.size) ∧
-    Sub (c.file :: cl) (s1.regCreated c.file) ∧ (s1.regCreated c.file).rows = y.rows := by
+    Sub (dropFile cl c.file) (s1.regCreated c.file) ∧ (s1.regCreated c.file).rows = y.rows := by
   obtain ⟨hP1, hfile⟩ := fstore_PI hst hP
-  obtain ⟨e1, -, e3, e4, -⟩ := store_fields hst
+  obtain ⟨e1, -, e3, e4, -, e6, e7⟩ := store_fields hst
   refine ⟨by rw [fcore_regCreated]; exact hP1, by simpa using hfile, ?_, by rw [regCreated_rows, (store_keep hst).1]⟩
+  refine hS.dropGrow (by rw [regCreated_pending, e3, hp]) ?_ (by rw [regCreated_nfile, ← hn]; exact e6) c.file
+    (by rw [← hn]; exact e7)
   intro f hf
-  simp only [List.mem_cons] at hf
-  rcases hf with hf | hf
-  · right
-    rw [← hf, regCreated_pos s1 f (by rw [e1]; exact hd)]
-    simp
-  · rcases hS f hf with h1 | h1
-    · left; rw [regCreated_pending, e3, hp]; exact h1
-    · right
-      rcases regCreated_cases s1 c.file with e | ⟨g, -, -, e⟩ <;> rw [e]
-      · rw [e4, hc]; exact h1
-      · show f ∈ s1.created ++ [g]
-        rw [e4, hc]; exact List.mem_append_left _ h1
+  have hf1 : f ∈ s1.created := by rw [e4, hc]; exact hf
+  rcases regCreated_cases s1 c.file with e | ⟨g, -, -, e⟩ <;> rw [e]
+  · exact hf1
+  · exact List.mem_append_left _ hf1
 
 theorem incr_BI {x : Cache} (hd : 0 < x.depth) (h : BI x) (E : Externals) (now : Int) (k : PyVal)
     (delta : Int) (dflt : Option Int) : BI (x.incr E now k delta dflt).1 := by
@@ -261,18 +276,21 @@ theorem incr_BI {x : Cache} (hd : 0 < x.depth) (h : BI x) (E : Externals) (now :
     · split
       · right; exact ⟨rfl, hfail⟩
       · rename_i s1 c hst
-        obtain ⟨h1, h2, h3, h4⟩ := incr_store_facts (x := x) (y := x.logSql "selKey") hd hP0 hS rfl rfl hst
-        left
-        refine ⟨rfl, dropFile cl c.file, ?_, ?_⟩
-        · have h5 := fPI_insRow (cl2 := dropFile cl c.file) h1 (DC.put E x.cfg.disk k).1 (DC.put E x.cfg.disk k).2 now c
+        obtain ⟨h1, h2, h3, h4⟩ := incr_store_facts (x := x) (y := x.logSql "selKey") hd hP0 hS rfl rfl rfl hst
+        have h5 := fPI_insRow (cl2 := dropFile cl c.file) h1 (DC.put E x.cfg.disk k).1 (DC.put E x.cfg.disk k).2 now c
             (by intro g hg; exact ⟨by simp [hg], h2 g hg⟩) (by intro f; simp [mem_dropFile]; grind)
-          have h6 := fcullW_PI _ now _ h5
+        have hq : Q4 (s1.regCreated c.file) (((s1.regCreated c.file).insRow (DC.put E x.cfg.disk k).1
+            (DC.put E x.cfg.disk k).2 now c).cullW now).1 := by
+          have h0 := Q4.refl (s1.regCreated c.file)
+          q4_auto
+        left
+        refine ⟨rfl, dropFile cl c.file, ?_, h3.q4 hq, ?_⟩
+        · have h6 := fcullW_PI _ now _ h5
           exact h6.cl_congr (by intro f; simp [or_comm])
-        · have hq : Q4 (s1.regCreated c.file) (((s1.regCreated c.file).insRow (DC.put E x.cfg.disk k).1
-              (DC.put E x.cfg.disk k).2 now c).cullW now).1 := by
-            have h0 := Q4.refl (s1.regCreated c.file)
-            q4_auto
-          exact (h3.mono (fun f hf => List.mem_cons_of_mem _ (mem_dropFile.1 hf).1)).q4 hq
+        · intro f hf
+          show f < _
+          rw [hq.nfile]
+          exact fcullW_lt _ now h5 f (by simpa using hf)
   · rename_i r hr
     split
     · split
@@ -280,22 +298,28 @@ theorem incr_BI {x : Cache} (hd : 0 < x.depth) (h : BI x) (E : Externals) (now :
       · split
         · right; exact ⟨rfl, hfail⟩
         · rename_i s1 c hst
-          obtain ⟨h1, h2, h3, h4⟩ := incr_store_facts (x := x) (y := x.logSql "selKey") hd hP0 hS rfl rfl hst
+          obtain ⟨h1, h2, h3, h4⟩ := incr_store_facts (x := x) (y := x.logSql "selKey") hd hP0 hS rfl rfl rfl hst
           have hr1 : r ∈ (s1.regCreated c.file).rows := by rw [h4]; exact selKey_mem hr
-          left
-          refine ⟨rfl, dropFile cl c.file, ?_, ?_⟩
-          · have h5 := fPI_updRow (cl2 := r.file :: dropFile cl c.file) h1 r hr1 now c
+          have h5 := fPI_updRow (cl2 := r.file :: dropFile cl c.file) h1 r hr1 now c
               (by intro g hg; exact ⟨by simp [hg], h2 g hg⟩) (by intro f; simp [mem_dropFile]; grind)
-            have h6 := fcullW_PI _ now _ h5
+          have hq : Q4 (s1.regCreated c.file) (((s1.regCreated c.file).updRow r.rowid now c).cullW now).1 := by
+            have h0 := Q4.refl (s1.regCreated c.file)
+            q4_auto
+          left
+          refine ⟨rfl, dropFile cl c.file, ?_, h3.q4 hq, ?_⟩
+          · have h6 := fcullW_PI _ now _ h5
             exact h6.cl_congr (by intro f; simp; grind)
-          · have hq : Q4 (s1.regCreated c.file) (((s1.regCreated c.file).updRow r.rowid now c).cullW now).1 := by
-              have h0 := Q4.refl (s1.regCreated c.file)
-              q4_auto
-            exact (h3.mono (fun f hf => List.mem_cons_of_mem _ (mem_dropFile.1 hf).1)).q4 hq
+          · intro f hf
+            show f < _
+            rw [hq.nfile]
+            rcases List.mem_append.1 hf with hf | hf
+            · exact fcullW_lt _ now h5 f hf
+            · have hf : r.file = some f := (List.mem_singleton.1 hf).symm
+              exact h1.ref_lt (c := fcore (s1.regCreated c.file)) hr1 hf
     · split
       · split
         · left
-          exact ⟨rfl, cl, by apply fPI_updIncr; exact hP0, hS0.of_eq rfl rfl⟩
+          exact ⟨rfl, cl, by apply fPI_updIncr; exact hP0, hS0.of_eq rfl rfl, by nobound⟩
         · right; exact ⟨rfl, cl, by fcore_simp; exact hP, hS.of_eq rfl rfl⟩
       · right; exact ⟨rfl, hfail⟩
 
@@ -376,7 +400,7 @@ theorem set_grow {x : Cache} (hd : 0 < x.depth) (E : Externals) (now : Int) (k v
   | error e => exact Grow.refl x
   | ok p =>
     obtain ⟨x1, c⟩ := p
-    obtain ⟨e1, -, -, e4, e5⟩ := store_fields hst
+    obtain ⟨e1, -, -, e4, e5, -, -⟩ := store_fields hst
     have hd1 : 0 < x1.depth := by rw [e1]; exact hd
     simp only
     have hg := transact_grow x1 hd1 (setBody (DC.put E x.cfg.disk k).1 (DC.put E x.cfg.disk k).2 now
@@ -400,7 +424,7 @@ theorem incr_grow {x : Cache} (hd : 0 < x.depth) (E : Externals) (now : Int) (k 
   have key : ∀ (v : PyVal) (s1 : Cache) (c : Cols), (x.logSql "selKey").store E v false = .ok (s1, c) →
       ∀ t, Q4 (s1.regCreated c.file) t → Grow x t := by
     intro v s1 c hst t hq
-    obtain ⟨e1, -, -, e4, e5⟩ := store_fields hst
+    obtain ⟨e1, -, -, e4, e5, -, -⟩ := store_fields hst
     constructor
     · intro p hp
       rw [hq.files, regCreated_files] at hp
